@@ -47,6 +47,20 @@ class ProgramData:
             self.sets(d)
         QN = an.m['qual_names'].QN
         self._qn = QN
+        # Name nodes in the body of a class statement (run while the ClassDef node is visited; recorded in no node's Scope)
+        # and in the `arguments` (default values, annotations) of a nested def (evaluated by the enclosing function)
+        self.class_body_names, self.nested_def_arg_names = set(), set()
+        for fn in self.fn_nodes.values():
+            for n in ast.walk(fn):
+                if isinstance(n, ast.ClassDef):
+                    for st in n.body:
+                        for m in ast.walk(st):
+                            if isinstance(m, ast.Name):
+                                self.class_body_names.add(an.nid(m))
+                if isinstance(n, ast.FunctionDef) and n is not an.fnode:
+                    for m in ast.walk(n.args):
+                        if isinstance(m, ast.Name):
+                            self.nested_def_arg_names.add(an.nid(m))
         # Name nodes inside `except <type>:` expressions (evaluated while an exception is dispatched, by no CFG node)
         self.except_type_names = set()
         for fn in self.fn_nodes.values():
@@ -232,6 +246,7 @@ def c06_observations(pd, tracer, stats):
                     stats['reads_ok'] += 1
                     continue
                 yield {'kind': 'read', 'act': act, 'view': view, 'name': name, 'name_id': name_id, 'k': k, 'var': var, 'writer_node': nid,
+                       'anno': sorted(pairs), 'where': 'nested_def_args' if name_id in pd.nested_def_arg_names else None,
                        'detail': '%r read at node %d: produced by node %d, DEFINITIONS=%s' % (name, cfg, nid, sorted(pairs))}
             elif kind == 'foreign':
                 stats['reads_produced_outside'] += 1
@@ -334,6 +349,7 @@ def c07_observations(pd, tracer, stats):
                     bad.append('LIVE_VARS_IN(stmt %d)' % nn)
                 if bad:
                     yield {'kind': 'live', 'act': act, 'view': view, 'name': name, 'i': i, 'j': j, 'var': v, 'reader': reader,
-                           'where': 'except_type' if name_id in pd.except_type_names else None,
+                           'where': 'except_type' if name_id in pd.except_type_names else
+                                    ('class_body' if name_id in pd.class_body_names else None),
                            'detail': 'value of %r in place after step %d (node %d) is read at step %d (node %d)%s but is missing from %s' % (
                                name, i, ni, j, view.nodes[j], '' if reader is None else ' by nested function %d' % reader, ', '.join(bad))}
